@@ -1,5 +1,6 @@
 import MtailVerif.Proofs.TailerPoll
 import MtailVerif.Generated.Tailer
+import MtailVerif.Proofs.Skeletons
 /-! # C18 — Every matching log path is tailed, once -/
 namespace MtailVerif.C18
 open MtailVerif MtailVerif.TailerPoll
@@ -46,37 +47,53 @@ theorem after_poll_tailed_eq_eligible_delivered (cfg : Cfg) (t : T) :
     matches (`if err := t.TailPath(absPath); err != nil {}` has no way out), and neither does a
     failed `doPatternGlob` end the polling loop. -/
 theorem tailer_shape :
-    Generated.Tailer.ignore = "filepath.Abs(); if err != nil {return true}; os.Stat(); if err != nil {return true}; if fi.Mode().IsDir() {return true}; return t.ignoreRegexPattern != nil && t.ignoreRegexPattern.MatchString(fi.Name())" ∧
-    Generated.Tailer.tailPath = "t.logstreamsMu.Lock(); defer t.logstreamsMu.Unlock(); if _, ok := t.logstreams[pathname]; ok {return nil}; logstream.New(); if err != nil {return err}; t.logstreams[pathname] =; t.wg.Add(); go {defer t.wg.Done(); for range l.Lines() {t.lines <-}; t.logstreamsMu.Lock(); delete(); logCount.Add(); t.logstreamsMu.Unlock()}; logCount.Add(); return nil" ∧
-    Generated.Tailer.doPatternGlob = "filepath.Glob(); if err != nil {return err}; for range matches {if t.Ignore(pathname) {continue}; filepath.Abs(); if err != nil {continue}; if err := t.TailPath(absPath); err != nil {}}; return nil" ∧
-    Generated.Tailer.pollLogPattern = "if err := t.doPatternGlob(pattern); err != nil {}; if t.logPatternPollWaker == nil {return }; t.wg.Add(); go {defer t.wg.Done(); <-t.initDone; if t.oneShot {return }; for  {select {case <-t.ctx.Done(): {return } case <-t.logPatternPollWaker.Wake(): {if err := t.doPatternGlob(pattern); err != nil {}}}}}" := ⟨rfl, rfl, rfl, rfl⟩
+    Generated.Tailer.ignore = "filepath.Abs(pathname); if err != nil {return true}; os.Stat(absPath); if err != nil {return true}; if fi.Mode().IsDir() {return true}; return t.ignoreRegexPattern != nil && t.ignoreRegexPattern.MatchString(fi.Name())" ∧
+    Generated.Tailer.tailPath = "t.logstreamsMu.Lock(); defer t.logstreamsMu.Unlock(); if _, ok := t.logstreams[pathname]; ok {return nil}; logstream.New(t.ctx, &t.wg, t.logstreamPollWaker, pathname, t.oneShot); if err != nil {return err}; t.logstreams[pathname] = l; t.wg.Add(1); go {defer t.wg.Done(); for range l.Lines() {t.lines <-}; t.logstreamsMu.Lock(); delete(t.logstreams, pathname); logCount.Add(-1); t.logstreamsMu.Unlock()}; logCount.Add(1); return nil" ∧
+    Generated.Tailer.doPatternGlob = "filepath.Glob(pattern); if err != nil {return err}; for range matches {if t.Ignore(pathname) {continue}; filepath.Abs(pathname); if err != nil {continue}; if err := t.TailPath(absPath); err != nil {}}; return nil" ∧
+    Generated.Tailer.pollLogPattern = "if err := t.doPatternGlob(pattern); err != nil {}; if t.logPatternPollWaker == nil {return }; t.wg.Add(1); go {defer t.wg.Done(); <-t.initDone; if t.oneShot {return }; for  {select {case <-t.ctx.Done(): {return } case <-t.logPatternPollWaker.Wake(): {if err := t.doPatternGlob(pattern); err != nil {}}}}}" := ⟨rfl, rfl, rfl, rfl⟩
 
 /-- C18 (after the next pattern poll): every existing regular file that matches a pattern and is
-    not ignored is tailed; everything tailed is an existing regular file, matches a pattern and is
-    not ignored (directories and ignored files never are); and there is exactly one stream per
-    path — whatever happened before, for every pattern set, ignore rule and glob semantics. -/
+    not ignored is tailed; everything tailed matches a pattern, is not ignored, and is something a
+    stream can hold open — never a directory, never a name that has gone, never a socket; a stream
+    is only ever *started* on a regular file (what else can be tailed is a device that took the
+    place of a log whose stream was already running); and there is exactly one stream per path —
+    whatever happened before, for every pattern set, ignore rule and glob semantics. -/
 theorem after_poll_tailed_eq_eligible (cfg : Cfg) (t : T) (hi : Inv cfg t) :
     let t' := poll cfg t
     t'.streams.Nodup ∧
     (∀ p, eligible cfg t p = true → p ∈ t'.streams) ∧
-    (∀ p ∈ t'.streams, eligible cfg t p = true) ∧
+    (∀ p ∈ t'.streams, ((kindOf t p).map Kind.reopens).getD false = true ∧
+        cfg.ignore (baseName p) = false ∧ ∃ pat ∈ cfg.patterns, cfg.globMatch pat p = true) ∧
+    (∀ p ∈ t'.streams, p ∉ t.streams → eligible cfg t p = true) ∧
     t'.nodes = t.nodes ∧ t'.delivered = (streamWake t).delivered := by
   intro t'
   have pp := pats_fold cfg cfg.patterns (streamWake t)
   have hnd : (streamWake t).streams.Nodup := hi.nodup.filter _
-  refine ⟨pp.nodup hnd, ?_, ?_, pp.nodes, ?_⟩
+  refine ⟨pp.nodup hnd, ?_, ?_, ?_, pp.nodes, ?_⟩
   · intro p he
     simp only [eligible, Bool.and_eq_true, decide_eq_true_eq, Bool.not_eq_true', List.any_eq_true] at he
     obtain ⟨⟨hk, hig⟩, pat, hpat, hm⟩ := he
     exact pp.hit p hk hig ⟨pat, hpat, hm⟩
   · intro p hp
+    rcases pp.added p hp with h | ⟨hk, hig, pat, hpat, hm⟩
+    · simp only [streamWake, List.mem_filter] at h
+      obtain ⟨hs, pat, hpat, hm⟩ := hi.sound p h.1
+      exact ⟨h.2, hs, pat, hpat, hm⟩
+    · have hk' : kindOf t p = some .file := hk
+      exact ⟨by simp [hk', Kind.reopens], hig, pat, hpat, hm⟩
+  · intro p hp hnot
     simp only [eligible, Bool.and_eq_true, decide_eq_true_eq, Bool.not_eq_true', List.any_eq_true]
     rcases pp.added p hp with h | ⟨hk, hig, pat, hpat, hm⟩
-    · simp only [streamWake, List.mem_filter, decide_eq_true_eq] at h
-      obtain ⟨hs, pat, hpat, hm⟩ := hi.sound p h.1
-      exact ⟨⟨h.2, hs⟩, pat, hpat, hm⟩
+    · simp only [streamWake, List.mem_filter] at h
+      exact absurd h.1 hnot
     · exact ⟨⟨hk, hig⟩, pat, hpat, hm⟩
   · exact pats_fold_delivered cfg _ _
+
+/-- in particular: no directory, no vanished name and no socket is tailed after a poll -/
+theorem after_poll_never_dir (cfg : Cfg) (t : T) (hi : Inv cfg t) (p : Bytes) (hp : p ∈ (poll cfg t).streams) :
+    kindOf t p ≠ some .dir ∧ kindOf t p ≠ some .socket ∧ kindOf t p ≠ none := by
+  have h := ((after_poll_tailed_eq_eligible cfg t hi).2.2.1 p hp).1
+  refine ⟨?_, ?_, ?_⟩ <;> intro e <;> simp [e, Kind.reopens] at h
 
 /-- the invariant holds initially and is preserved by every operation: the same path is never
     tailed by two streams at once, at any point of any history -/
@@ -93,8 +110,7 @@ theorem inv_step (cfg : Cfg) (t : T) (hi : Inv cfg t) (op : Op) : Inv cfg (step 
     refine ⟨h.1, ?_⟩
     intro p hp
     have he := h.2.2.1 p hp
-    simp only [eligible, Bool.and_eq_true, decide_eq_true_eq, Bool.not_eq_true', List.any_eq_true] at he
-    exact ⟨he.1.2, he.2⟩
+    exact ⟨he.2.1, he.2.2⟩
 
 theorem never_two_streams_per_path (cfg : Cfg) (ops : List Op) : (run cfg {} ops).streams.Nodup := by
   have : ∀ (ops : List Op) (t : T), Inv cfg t → Inv cfg (run cfg t ops) := by
@@ -130,8 +146,20 @@ theorem pending_settled_at_poll (cfg : Cfg) (t : T) :
     regular files that sort after it still are -/
 example :
     let cfg : Cfg := ⟨[[100, 47, 42]], fun pat p => pat = [100, 47, 42] && p.take 2 = [100, 47], fun _ => false⟩
-    (run cfg {} [.mkdir [100], .createOther [100, 47, 48], .createFile [100, 47, 97], .poll]).streams
-      = [[100, 47, 97]] := by decide
+    (run cfg {} [.mkdir [100], .createOther [100, 47, 48] .device, .createOther [100, 47, 49] .socket,
+      .createFile [100, 47, 97], .poll]).streams = [[100, 47, 97]] := by decide
+
+/-- a device that takes the place of a tailed log is followed by the stream that was there; a socket
+    that does ends it, and the next poll starts afresh on the log that comes back -/
+example :
+    let cfg : Cfg := ⟨[[100, 47, 42]], fun pat p => pat = [100, 47, 42] && p.take 2 = [100, 47], fun _ => false⟩
+    ((run cfg {} [.mkdir [100], .createFile [100, 47, 97], .poll, .remove [100, 47, 97],
+        .createOther [100, 47, 97] .device, .poll]).streams,
+     (run cfg {} [.mkdir [100], .createFile [100, 47, 97], .poll, .remove [100, 47, 97],
+        .createOther [100, 47, 97] .socket, .poll]).streams,
+     (run cfg {} [.mkdir [100], .createFile [100, 47, 97], .poll, .remove [100, 47, 97],
+        .createOther [100, 47, 97] .socket, .poll, .remove [100, 47, 97], .createFile [100, 47, 97], .poll]).streams)
+      = ([[100, 47, 97]], [], [[100, 47, 97]]) := by decide
 
 /-- non-vacuity: two overlapping patterns, one ignored file, one directory -/
 example :
@@ -139,5 +167,11 @@ example :
       fun b => b = [122]⟩
     (run cfg {} [.mkdir [100], .createFile [100, 47, 97], .createFile [100, 47, 122], .mkdir [100, 47, 115],
       .poll, .poll]).streams = [[100, 47, 97]] := by decide
+
+/-! ### regenerated control skeletons (written by lib/wire_skeletons.py) -/
+/-- Obligations over regenerated facts: the functions this property's model stands for have the
+    control skeleton the model was written against (`Proofs/Skeletons.lean`, one `rfl` per function
+    or clause; DESIGN.md §11.6a) -/
+theorem dispatch_skeletons : Skeletons.DispatchShape := Skeletons.dispatch_shape
 
 end MtailVerif.C18
